@@ -282,6 +282,9 @@ def run(ctx):
     r143(ctx, fx)
     r144(ctx, fx)
     r145(ctx, fx)
+    # R14.7: positional results are expressed in LSP units — the BYTELEN rule of C17, applied to everything outside the formatting module
+    from .c17 import r171
+    r171(ctx, fx, scope_prefix=("mos::lsp::formatting",), rid_name="R14.7")
     ctx.not_decided("equality of answers with a freshly started server on concrete edit histories; well-formedness of returned ranges and semantic tokens; "
                     "malformed request parameters (`req.extract(..).unwrap()`); that every request is answered when a handler returns Err")
     ctx.assume("label propagation caveats of rules/taint.py")
